@@ -12,6 +12,9 @@ rundemo() {
     (cd $WT && go test -vet=off -count=1 ./$PKG -run 'TestZZ' >/tmp/demo.$$ 2>&1); rc=$?
     (cd $WT/$PKG && for f in $OUT/demo/*_test.go; do rm -f $(basename $f); done)
   else
+    # a demo that expects a CLI binary built from the tree under test at a fixed /tmp path gets it rebuilt first
+    B=$(grep -o '/tmp/k8snp-[A-Za-z0-9_-]*' $OUT/demo/run.sh | head -1)
+    [ -n "$B" ] && (cd $WT && go build -o $B ./cmd/netpolicy)
     (cd $OUT/demo && bash ./run.sh >/tmp/demo.$$ 2>&1); rc=$?
   fi
   return $rc
